@@ -319,6 +319,70 @@ def c15_setops(args):
     return None
 
 
+@check('C15.sequence')
+def c15_sequence(args):
+    """a short sequence of |, |=, -, -= over a few graphs against list-level reference semantics; after
+    every step every graph that is not the receiver of an in-place form is what it was"""
+    objs, ref = [], []
+    for ts, top in args['graphs']:
+        ts = [tuple(t) for t in ts]
+        objs.append(Graph(ts, top=top, epidata={(s_, norm(r), t): ['m'] for s_, r, t in ts}))
+        ref.append([[(s_, norm(r), t) for s_, r, t in ts], top])
+
+    def occurs(top, ts):
+        return any(top == t[0] or top == t[2] for t in ts)
+
+    def state(i):
+        return (list(objs[i].triples), objs[i]._top, {k: list(v) for k, v in objs[i].epidata.items()},
+                dict(objs[i].metadata))
+    for step, (op, dst, a, b) in enumerate(args['ops']):
+        a, b = a % len(objs), b % len(objs)
+        before = [state(i) for i in range(len(objs))]
+        ta, tb = ref[a][0], ref[b][0]
+        if op in ('or', 'ior'):
+            nt = ta + [t for t in tb if t not in set(ta)]
+            ntop = ref[a][1]
+        else:
+            nt = [t for t in ta if t not in set(tb)]
+            ntop = ref[a][1] if occurs(ref[a][1], nt) else None
+        try:
+            if op == 'or':
+                res = objs[a] | objs[b]
+            elif op == 'sub':
+                res = objs[a] - objs[b]
+            elif op == 'ior':
+                res = objs[a]
+                res |= objs[b]
+            else:
+                res = objs[a]
+                res -= objs[b]
+        except Exception as e:
+            return 'step %d (%s) raised %s' % (step, op, type(e).__name__)
+        if op in ('or', 'sub'):
+            if any(res is o for o in objs):
+                return 'step %d: %s returned one of the existing graphs' % (step, op)
+            untouched = range(len(objs))
+            if dst < len(objs):
+                objs[dst], ref[dst] = res, [nt, ntop]
+                before[dst] = None
+            else:
+                objs.append(res)
+                ref.append([nt, ntop])
+        else:
+            if res is not objs[a]:
+                return 'step %d: in-place %s did not return the receiver' % (step, op)
+            ref[a] = [nt, ntop]
+            before[a] = None
+        for i, b0 in enumerate(before):
+            if b0 is not None and state(i) != b0:
+                return 'step %d (%s): graph %d, not the receiver, changed: %r -> %r' % (step, op, i, b0[:2], state(i)[:2])
+        k = dst if op in ('or', 'sub') and dst < len(before) else (len(objs) - 1 if op in ('or', 'sub') else a)
+        if list(objs[k].triples) != ref[k][0] or objs[k]._top != ref[k][1]:
+            return 'step %d (%s): result %r top %r, expected %r top %r' % (
+                step, op, objs[k].triples, objs[k]._top, ref[k][0], ref[k][1])
+    return None
+
+
 def run_C15(R):
     for n in range(0, 3 if R.quick else 4):
         stream = itertools.product(C15_TRS, repeat=n)
@@ -330,6 +394,12 @@ def run_C15(R):
         ts2 = [R.rnd.choice(C15_TRS) for _ in range(R.rnd.randint(0, 3))]
         R.check('C15.setops', {'triples': ts, 'top': R.rnd.choice([None, None, 'a', 'b', 'x', 'q']),
                                'triples2': ts2, 'top2': R.rnd.choice([None, 'a'])})
+    for it in range(3000 if R.quick else 50000):
+        graphs = [([R.rnd.choice(C15_TRS) for _ in range(R.rnd.choice([0, 0, 1, 2, 3]))],
+                   R.rnd.choice([None, None, 'a', 'b'])) for _ in range(3)]
+        ops = [(R.rnd.choice(['or', 'ior', 'sub', 'isub']), R.rnd.randrange(4), R.rnd.randrange(5), R.rnd.randrange(5))
+               for _ in range(R.rnd.randint(2, 4))]
+        R.check('C15.sequence', {'graphs': graphs, 'ops': ops})
 
 
 # =============================== C16 =========================================
